@@ -33,7 +33,8 @@ type FoCfg struct {
 	StatOn     bool               `json:"StatOn"`
 	InitBe     map[string]*foEntJ `json:"InitBe"`
 	InitErrs   map[string]*foEntJ `json:"InitErrs"`
-	Backend    string             `json:"Backend"` // ShardedMap | SyncMap (Generic: always ShardedMapOf)
+	Backend    string             `json:"Backend"` // ShardedMap | SyncMap (Generic: ShardedMapOf unless OfAny)
+	OfAny      bool               `json:"OfAny"`   // Generic only: FailoverOf[interface{}] over Backend (ShardedMap | SyncMap)
 	UnitSec    int                `json:"UnitSec"`
 	Defaults   bool               `json:"Defaults"` // leave FailedUpdateTTL/UpdateTTL/TimeToLive at library defaults (UnitSec must be 40)
 	Mutability bool               `json:"Mutability"`
@@ -596,6 +597,55 @@ func (a *anyFo) ErrsWrite(ctx context.Context, key []byte, tok string) {
 	_ = a.f.Errors.Write(ctx, key, error(tokErr{tok: tok}))
 }
 
+// ofAnyFo is FailoverOf[interface{}] over a backend of the interface{} family (cache.ReadWriter has the method set
+// of cache.ReadWriterOf[interface{}]).
+type ofAnyFo struct {
+	f  *cache.FailoverOf[interface{}]
+	be Backend
+}
+
+func (a *ofAnyFo) Get(ctx context.Context, key []byte, build func(ctx context.Context) (string, error)) (string, error) {
+	v, err := a.f.Get(ctx, key, func(ctx context.Context) (interface{}, error) {
+		s, err := build(ctx)
+		if err != nil {
+			return nil, err
+		}
+
+		return s, nil
+	})
+
+	if v == nil {
+		return "", err
+	}
+
+	return decAny(v), err
+}
+
+func (a *ofAnyFo) KeyLocks() int    { return a.f.VerifKeyLocks() }
+func (a *ofAnyFo) Backend() Backend { return a.be }
+func (a *ofAnyFo) ErrsWalk(fn func(k []byte, tok string, e int64)) {
+	if a.f.Errors == nil {
+		return
+	}
+
+	_, _ = a.f.Errors.Walk(func(e cache.EntryOf[error]) error {
+		te, _ := e.(*cache.TraitEntryOf[error])
+		fn(append([]byte(nil), e.Key()...), errTok(e.Value()), atomic.LoadInt64(&te.E))
+
+		return nil
+	})
+}
+
+func (a *ofAnyFo) ErrsDeleteAll() {
+	if a.f.Errors != nil {
+		a.f.Errors.DeleteAll(context.Background())
+	}
+}
+
+func (a *ofAnyFo) ErrsWrite(ctx context.Context, key []byte, tok string) {
+	_ = a.f.Errors.Write(ctx, key, error(tokErr{tok: tok}))
+}
+
 type ofFo struct {
 	f  *cache.FailoverOf[string]
 	be Backend
@@ -677,6 +727,25 @@ func newFo(cfg FoCfg, s *sched, stat *StatRec, t0 func() time.Time) foInst {
 		}
 
 		return TickDur(n, u)
+	}
+
+	if cfg.Generic && cfg.OfAny && (cfg.Backend == "ShardedMap" || cfg.Backend == "SyncMap") {
+		be := NewBackend(cfg.Backend, bc)
+
+		var rw cache.ReadWriterOf[interface{}] = &gateRW{s: s, inner: be.Raw().(cache.ReadWriter), t0: t0}
+
+		fc := cache.FailoverConfigOf[interface{}]{
+			Name: foName, Backend: rw, BackendConfig: bc,
+			FailedUpdateTTL: ttl(cfg.FailTTL), UpdateTTL: ttl(cfg.UpdTTL), SyncUpdate: cfg.SyncUpdate,
+			SyncRead: cfg.SyncRead, MaxStaleness: time.Duration(cfg.MaxStale) * u, FailHard: cfg.FailHard,
+			Logger: logger, Stats: st, ObserveMutability: cfg.Mutability,
+		}
+
+		if cfg.Defaults {
+			fc.FailedUpdateTTL, fc.UpdateTTL = 0, 0
+		}
+
+		return &ofAnyFo{f: cache.NewFailoverOf[interface{}](fc.Use), be: be}
 	}
 
 	if cfg.Generic {
